@@ -26,6 +26,11 @@ CHECKS = {
          "For every choice program up to the bound and every box of a 100-box dyadic grid, traces from the interval evaluator (box) and the point evaluator (each sample point) of VM<255>, VM<3> and JIT are fed to simplify; every resulting child, and every child of a child over nested sub-boxes up to the nesting bound, is compared bit-for-bit with the original function on the traced domain under point, float-slice and grad-slice evaluators; simplification into other budgets (3, 4, 12) is included; simplify must never fail.",
          "Trusted: dyadic alphabets make interval decisions exact; child-vs-parent comparison under the same evaluator.",
          "DESIGN.md §4 C04"),
+ "C05": ("model_checking",
+         "bounded-exhaustive enumeration of ops/programs x points x seed gradients on VM and JIT gradient evaluators, vs. f64 dual numbers (local chain-rule obligation)",
+         "Every opcode and operand form over a 20-value alphabet (squared for binary ops) with six different seed gradients per operand, in slices of every length 1..=9, and every DAG up to the node bound over 20 differentiable ops with all nodes exported, are evaluated by the VM and JIT gradient evaluators; each node's gradient must equal the f64 dual-number rule applied to the evaluator's own operand gradients (cancellation-aware tolerance), its value must equal the float-slice evaluator's, the symbolic derivative from Context::deriv must evaluate to the evaluator's partials, and the Shape transform path (7 matrices incl. projective) is checked against f64 duals.",
+         "Trusted: dual64 rules and the 1e-3 locus-exclusion rule (skips are counted); rand/mix taken as locally constant; x86_64 JIT only.",
+         "DESIGN.md §4 C05"),
  "C11": ("model_checking",
          "bounded-exhaustive enumeration of programs x finite inputs on all evaluator kinds of both backends, crash journal for aborts/faults",
          "Every opcode/operand form on all finite special-value points and finite-endpoint boxes, every composition op2(op1(..),..) / op2(p1(..),p2(..)) / op3(op2(p1,p2)) of overflow-or-invalid producers with all 30 opcodes (register and immediate forms) on 12^3 grids of points and boxes reaching +-f32::MAX, the Shape API with extreme and projective matrices, and malformed argument lists, are executed on VM and JIT point / interval / float-slice / grad-slice evaluators; any panic, abort, fault, malformed returned interval or non-error on malformed arguments is a violation, attributed to the operation that creates it.",
